@@ -67,6 +67,18 @@ CHECKS = {
    text="Sealed export with files of assorted sizes; generated histories of opens/creates with every flag combination, writes at boundary offsets with arbitrary flag words (append added/removed/random), size-changing setattr, fallocate with many mode words, on handle-based and zero-message-open servers. Invariant after EVERY request: each pre-existing file has its initial size on the host. Differential against an unsealed twin: what changes a size there must be refused here; what stays within the size must be answered and take effect as on the twin.",
    design="3/C18", note="setattr carrying SIZE is refused by design; O_DIRECT transfers are not compared with the twin (alignment dependent).",
    technique="stateful property-based testing (proptest): size invariant after every step + differential against an unsealed twin"),
+ "C10": dict(level="exploration",
+   text="Model-based testing of the overlay: generated layer contents (files, directories, symlinks, whiteouts, opaque directories in all three xattr spellings; equal and different kinds under the same name across 1 upper + 1-3 lowers) and path-addressed operation histories. Oracle: a pure union function over the layer directories materialises the expected tree; every operation is also applied to that tree with plain system calls (the kernel is the model of an ordinary file system); after every modifying operation the tree walked THROUGH the overlay equals the reference tree walked on the host; a content+metadata snapshot of every lower directory is identical before and after; without an upper layer every modifying operation fails.",
+   design="3/C10", note="Not compared: inode numbers, directory nlink/size, hard-link identity across copy-up, timestamps, owners. Lower layers contain no special files other than whiteouts; rename is not generated.",
+   technique="stateful property-based testing (proptest) against a reference union model materialised on the host"),
+ "C11": dict(level="exploration",
+   text="C10's driver with an upper layer and an op mix weighted to delete/re-create/modify lower objects: after EVERY modifying prefix a second OverlayFs with fresh passthrough layers is started over the same directories and walked; its tree must equal the running instance's, which must equal the reference tree (so deletions stay deleted, re-created directories stay empty, copied-up objects keep type, permission bits, full prior content plus the modification, link targets, and parents' modes).",
+   design="3/C11", note="Restart = new instance over the same directories; no host file system crash is modelled.",
+   technique="stateful property-based testing (proptest) with a restart (new instance) differential after every prefix"),
+ "C20": dict(level="exploration",
+   text="Differential testing of the two dispatch paths: the byte generator of C01 feeds the same request through handle_message and async_handle_message (built with the async-io feature in a second harness crate) against fresh copies of one scripted file system implementing both traits from one script; file system call logs and reply bytes (or absence of a reply) must be identical, over a /dev/fuse stand-in and random virtio chains.",
+   design="3/C20", note="Reply areas smaller than a reply header are not generated; the passthrough id of open/create (not expressible in the async API) is scripted as absent.",
+   technique="differential property-based testing (proptest): sync vs async handler on identical generated bytes"),
  "C02": dict(
    level="exploration",
    text="Generated search: every opcode x boundary/random valuations of every wire field (encoded through the kernel's own struct layouts) is served by Server<Arc<MockFs>> over both transports and the logged FileSystem call is compared with a protocol-level oracle table; a wrong method, swapped/dropped argument or missing flag test shows as a mismatch. Exploration is the right level: the domain is a huge product of field values with no finite abstraction the tools here could exhaust.",
@@ -82,7 +94,7 @@ except Exception:
     pass
 m = {
  "version": 1,
- "setup_cmd": "cd /verif && mkdir -p abi/out && gcc -O0 -o abi/out/probe abi/probe.c && ./abi/out/probe > abi/out/layout.json && cd harness && CARGO_NET_OFFLINE=true cargo build --release --offline",
+ "setup_cmd": "cd /verif && mkdir -p abi/out && gcc -O0 -o abi/out/probe abi/probe.c && ./abi/out/probe > abi/out/layout.json && cd harness && CARGO_NET_OFFLINE=true cargo build --release --offline && cd ../harness-async && CARGO_NET_OFFLINE=true cargo build --release --offline",
  "hooks": {
    "guard": "--cfg fuse_backend_rs_verif",
    "enable": "harness/.cargo/config.toml sets rustflags = [\"--cfg\", \"fuse_backend_rs_verif\"]; every check builds /repo through the harness crate's path dependency",
@@ -91,8 +103,9 @@ m = {
    "add_only": True,
  },
  "engines": [
-   {"name": "fbv", "path": "harness", "serves_properties": sorted(CHECKS.keys()),
-    "kind_free_text": "Rust binary: proptest TestRunner driven from main(), worker fan-out over processes, kernel-header-derived wire codec, SEQPACKET /dev/fuse stand-in, hand-built virtio chains, scripted file systems"},
+   {"name": "fbv", "path": "harness", "serves_properties": sorted(k for k in CHECKS.keys() if k != "C20"),
+    "kind_free_text": "Rust binary: proptest TestRunner driven from main(), worker fan-out over processes, kernel-header-derived wire codec, SEQPACKET /dev/fuse stand-in, hand-built virtio chains, scripted file systems, chroot jail + host-syscall reference for passthrough/overlay, harness-owned thread scheduler"},
+   {"name": "fbv-async", "path": "harness-async", "serves_properties": ["C20"], "kind_free_text": "same engine and generators compiled against fuse-backend-rs with the async-io feature"},
  ],
  "checks": [],
  "not_applicable": [],
@@ -107,7 +120,7 @@ for pid in ALL:
           "thorough_cmd": "./check %s thorough" % pid,
           "evidence_file": "evidence/%s.json" % pid,
           "replay_cmd_template": "./check %s --replay {path}" % pid,
-          "engine": "fbv",
+          "engine": "fbv-async" if pid == "C20" else "fbv",
           "level_claimed": {"category": c["level"], "text": c["text"], "design_ref": c["design"]},
           "level_note": c["note"],
           "technique": c["technique"],
